@@ -165,6 +165,13 @@ def corr_family(pid, fam, seed, count, tag, extra_args=()):
     os.makedirs(out, exist_ok=True)
     rc, o = sh([CVH, fam, str(seed), str(count), out, *extra_args], timeout=3000)
     res = {"family": fam, "seed": seed, "count": count, "disagreements": [], "impl_failures": [], "meta": {}}
+    if rc == 97 and os.path.exists(os.path.join(out, "hang.json")):
+        h = json.load(open(os.path.join(out, "hang.json")))
+        res["disagreements"].append({"kind": "impl-hang", "family": fam, "seed": seed, "line": None, "case": h.get("case"),
+                                     "request": f"(case {h.get('case')} of family {fam}, seed {seed}: regenerate with `cvh {fam} {seed} {count} <dir> {h.get('case')}`)",
+                                     "impl": "!hang: " + h.get("what", ""), "model": "terminates (C04)"})
+        res["meta"] = {"evaluations": h.get("case", 0) + 1, "distinct_nontrivial": 0, "samples": [f"hang at case {h.get('case')}"], "histogram": {"hang": 1}}
+        return res
     if rc != 0:
         res["impl_failures"].append({"kind": "harness-failed", "family": fam, "seed": seed, "detail": o[-3000:]})
         return res
@@ -190,11 +197,13 @@ def corr_family(pid, fam, seed, count, tag, extra_args=()):
             d = {"kind": "model-vs-impl", "family": fam, "seed": seed, "line": i,
                  "case": (int(cases[i]) if cases and i < len(cases) and cases[i] else None),
                  "request": r, "impl": a, "model": b}
-            if b.startswith("!monitor"):
+            mon_segs = [x for x in pb.split(" ; ") if x.startswith("!monitor")]
+            other_diff = [x for x, y in zip(pb.split(" ; "), pa.split(" ; ")) if x != y and not x.startswith("!monitor")]
+            if mon_segs and not other_diff:
                 # the oracle (property wording, evaluated by the Lean monitor) rejects what the
                 # implementation produced: implementation-vs-oracle, not a model disagreement
                 d["kind"] = "impl-vs-oracle"
-                d["monitor_ids"] = b.split()[1:]
+                d["monitor_ids"] = [i for m in mon_segs for i in (m.split()[1:] if not m.split()[1:2] == ["NEW"] else ["NEW"])]
                 ks = known.match(pid, d)
                 if ks:
                     for k in ks:
